@@ -12,9 +12,11 @@
 (* Grid: tx type x gas limit {exact need, 2x, large(, intrinsic)} x price    *)
 (* relations to base fee and floor x multiplier x minGasPrice x program      *)
 (* (success, calldata + access list, revert, out of gas, refund-heavy         *)
-(* SSTORE clearing), multi-message transactions of one sender and of 2-3     *)
+(* SSTORE clearing with the refund counter below and above the EIP-3529 cap   *)
+(* x spare gas), multi-message transactions of one sender and of 2-3          *)
 (* different senders, NoBaseFee, block gas limit, and Cosmos txs              *)
-(* with and without the DynamicFee extension option.                          *)
+(* through every entry point: default chain signed direct / amino-json /      *)
+(* EIP-712, DynamicFee extension option, legacy EIP-712 (Web3Tx) chain.       *)
 (***************************************************************************)
 EXTENDS EvmFees
 
@@ -40,7 +42,7 @@ Values  == IF Tier = "thorough" THEN {"0", "7"} ELSE {"7"}
 Par(base, nb, mgp, mult) == [baseFee |-> base, noBaseFee |-> nb, mgp18 |-> mgp, mult18 |-> mult, maxGas |-> "40000000"]
 
 NoResp == [present |-> FALSE, gasUsed |-> "0", failed |-> FALSE, outcome |-> "-"]
-NoCos  == [gas |-> "0", fee |-> "0", hasFee |-> FALSE, ext |-> "none", maxPrio |-> "0", amount |-> "0"]
+NoCos  == [gas |-> "0", fee |-> "0", hasFee |-> FALSE, ext |-> "none", sign |-> "direct", maxPrio |-> "0", amount |-> "0"]
 
 \* price points [gp, cap, tip]
 Dyn(cap, tip) == [gp |-> cap, cap |-> cap, tip |-> tip]
@@ -65,7 +67,7 @@ Shape(type, prog) ==
     LET typed == type # "legacy" IN
     [nz |-> IF prog = "calldata" THEN "10" ELSE "0", z |-> IF prog = "calldata" THEN "5" ELSE IF prog = "create" THEN "1" ELSE "0",
      alAddrs |-> IF prog = "calldata" /\ typed THEN "2" ELSE "0", alKeys |-> IF prog = "calldata" /\ typed THEN "3" ELSE "0",
-     slots |-> IF prog = "sstore" THEN "4" ELSE "0"]
+     slots |-> IF prog = "sstore" THEN "4" ELSE "0"]   \* 4 slots: the refund counter (19200) exceeds the cap (8204)
 
 NeedGas(m) == CASE m.prog = "revert" -> BigAdd(Intrinsic(m), "6")
                 [] m.prog = "sstore" -> SstoreExec(m)
@@ -104,6 +106,21 @@ EthSide == UNION { UNION { { Eth("side", Par(B, FALSE, mgp, mult), <<Msg(t, p, p
                                pr \in (IF t = "dynamic" THEN {Dyn(B3, B), Dyn(B2, B2)} ELSE {Leg(B2)}),
                                lk \in {"exact", "double"}, mgp \in {"0", DecOfInt(B2)}, mult \in {"0", Half, One18} }
                            : t \in Types } : p \in SideProgs }
+
+\* refunds on both sides of the EIP-3529 cap (1 slot: counter 4800 < consumed / 5 = 5201; 2, 10 slots:
+\* above it) x spare gas in the limit (none, a little, 1.5 x, 2 x, large) x multipliers under which the
+\* minimum-gas rule does and does not bind
+Tenth == "100000000000000000"
+WithSlots(m, n, lk) ==
+    LET m1 == [m EXCEPT !.slots = n] IN
+    [m1 EXCEPT !.gas = CASE lk = "exact"  -> SstoreExec(m1)
+                         [] lk = "spare"  -> BigAdd(SstoreExec(m1), "1000")
+                         [] lk = "half"   -> BigQuo(BigMul(SstoreExec(m1), "3"), "2")
+                         [] lk = "double" -> BigMul(SstoreExec(m1), "2")
+                         [] lk = "short"  -> BigSub(SstoreExec(m1), "1")
+                         [] lk = "large"  -> "1000001"]
+EthRefund == UNION { { Eth("refund", Par(B, FALSE, "0", mult), <<WithSlots(Msg(t, "sstore", IF t = "dynamic" THEN Dyn(B3, B) ELSE Leg(B2), "exact", "0"), n, lk)>>) :
+                          n \in {"1", "2", "10"}, lk \in {"exact", "spare", "half", "double", "short", "large"}, mult \in {"0", Tenth, Half} } : t \in Types }
 
 \* no base fee: the effective price is min(tip, cap)
 EthNoBase == UNION { { Eth("nobase", Par(B, TRUE, mgp, Half), <<Msg(t, p, pr, "double", "7")>>) :
@@ -150,22 +167,25 @@ EthMultiSender == EthMultiSender2 \cup EthMultiSender3 \cup EthMultiSenderBad
 
 \* Cosmos transactions: fee = price x gas
 CosGas == "200000"
-Cos(price, has, ext, prio) == [gas |-> CosGas, fee |-> BigMul(price, CosGas), hasFee |-> has, ext |-> ext, maxPrio |-> prio, amount |-> "5"]
-CosGrid == { [tag |-> "cosmos", par |-> Par(B, nb, mgp, Half), route |-> "cosmos", cos |-> Cos(pr, TRUE, x[1], x[2]), msgs |-> <<>>] :
-                pr \in {Bm1, B, B2m1, B2, B3}, x \in {<<"none", "0">>, <<"dynfee", "0">>, <<"dynfee", Bm1>>, <<"dynfee", B>>, <<"dynfee", B3>>},
-                mgp \in MgpSet, nb \in BOOLEAN }
-           \cup { [tag |-> "cosmos-nofee", par |-> Par(B, nb, mgp, Half), route |-> "cosmos", cos |-> Cos("0", FALSE, "none", "0"), msgs |-> <<>>] :
-                    mgp \in {"0", DecOfInt(B)}, nb \in BOOLEAN }
+\* entry points of a Cosmos transaction: <<extension option (selects the ante chain), MaxPriorityPrice, sign mode>>
+Cos(price, has, x) == [gas |-> CosGas, fee |-> BigMul(price, CosGas), hasFee |-> has, ext |-> x[1], sign |-> x[3], maxPrio |-> x[2], amount |-> "5"]
+Direct   == <<"none", "0", "direct">>
+CosPlain == {Direct, <<"none", "0", "amino">>, <<"none", "0", "eip712">>, <<"web3", "0", "eip712">>}
+CosEntry == CosPlain \cup {<<"dynfee", "0", "direct">>, <<"dynfee", Bm1, "direct">>, <<"dynfee", B, "direct">>, <<"dynfee", B3, "direct">>}
+CosGrid == { [tag |-> "cosmos", par |-> Par(B, nb, mgp, Half), route |-> "cosmos", cos |-> Cos(pr, TRUE, x), msgs |-> <<>>] :
+                pr \in {Bm1, B, B2m1, B2, B3}, x \in CosEntry, mgp \in MgpSet, nb \in BOOLEAN }
+           \cup { [tag |-> "cosmos-nofee", par |-> Par(B, nb, mgp, Half), route |-> "cosmos", cos |-> Cos("0", FALSE, x), msgs |-> <<>>] :
+                    mgp \in {"0", DecOfInt(B)}, nb \in BOOLEAN, x \in CosPlain }
 
 \* a fractional floor and a provided fee of exactly ceil(minGasPrice x gas): not a multiple of the gas limit
 FracMgp == BigSub(DecOfInt(B2), Half)
 CosFrac == { [tag |-> "cosmos-frac", par |-> Par(B, FALSE, FracMgp, Half), route |-> "cosmos",
-              cos |-> [Cos("0", TRUE, x[1], x[2]) EXCEPT !.fee = BigAdd(DecMulCeil(FracMgp, CosGas), d)], msgs |-> <<>>] :
-                x \in {<<"none", "0">>, <<"dynfee", B>>, <<"dynfee", "0">>}, d \in {"-1", "0", "1"} }
+              cos |-> [Cos("0", TRUE, x) EXCEPT !.fee = BigAdd(DecMulCeil(FracMgp, CosGas), d)], msgs |-> <<>>] :
+                x \in CosPlain \cup {<<"dynfee", B, "direct">>, <<"dynfee", "0", "direct">>}, d \in {"-1", "0", "1"} }
 
-CosBlockGas == { [tag |-> "blockgas", par |-> SmallBlock, route |-> "cosmos", cos |-> Cos(B2, TRUE, "none", "0"), msgs |-> <<>>] }
+CosBlockGas == { [tag |-> "blockgas", par |-> SmallBlock, route |-> "cosmos", cos |-> Cos(B2, TRUE, x), msgs |-> <<>>] : x \in {Direct, <<"web3", "0", "eip712">>} }
 
-SmallFamilies == EthSide \cup EthNoBase \cup EthZeroBase \cup EthBlockGas \cup EthMulti \cup EthMultiSender \cup CosGrid \cup CosFrac \cup CosBlockGas
+SmallFamilies == EthSide \cup EthRefund \cup EthNoBase \cup EthZeroBase \cup EthBlockGas \cup EthMulti \cup EthMultiSender \cup CosGrid \cup CosFrac \cup CosBlockGas
 
 ---------------------------------------------------------------------------
 Rich == "1000000000000000000000000"
@@ -176,7 +196,7 @@ ModelEvent(x) ==
 
 \* the script of a scenario: the inputs only
 Script(x) == [tag |-> x.tag, par |-> x.par, route |-> x.route,
-              cos |-> [gas |-> x.cos.gas, fee |-> IF x.cos.hasFee THEN x.cos.fee ELSE "", ext |-> x.cos.ext, maxPrio |-> x.cos.maxPrio, amount |-> x.cos.amount],
+              cos |-> [gas |-> x.cos.gas, fee |-> IF x.cos.hasFee THEN x.cos.fee ELSE "", ext |-> x.cos.ext, sign |-> x.cos.sign, maxPrio |-> x.cos.maxPrio, amount |-> x.cos.amount],
               msgs |-> [i \in Idx(x.msgs) |-> [f \in DOMAIN x.msgs[i] \ {"resp", "twinGas"} |-> x.msgs[i][f]]]]
 
 None == [tag |-> "none"]
